@@ -101,6 +101,12 @@ func checkConstIndexes(p *Prog, r *Result, pkg *packages.Package, rel string, ru
 						fmt.Sprintf("%s is indexed at a constant position on the belief that the parser never builds a %s with an empty %s, and that belief does not hold: %s", subject, typ, field, fail))
 					r.Except(funcKey(rel, fd)+"#"+subject, why)
 					continue
+				} else if strings.HasPrefix(why, "recogniser agreement:") {
+					fail := rangeRecognisersAgree(p, pkg)
+					r.Check(fail == "", rule, key, ix.Pos(), "exception: "+why+" — checked",
+						fmt.Sprintf("%s is indexed at a constant position on the belief that a literal byte precedes the operator, and that belief does not hold: %s", subject, fail))
+					r.Except(funcKey(rel, fd)+"#"+subject, why)
+					continue
 				} else {
 					r.OK(rule, key, ix.Pos(), "exception: "+why)
 					r.Except(funcKey(rel, fd)+"#"+subject, why)
@@ -360,4 +366,101 @@ func builtNonEmpty(p *Prog, pkg *packages.Package, rel, typ, field string) strin
 		return "no construction site of " + typ + " found"
 	}
 	return ""
+}
+
+// rangeRecognisersAgree: isLitRedir looks at the byte before a redirection operator inside a literal. A literal can
+// begin with `<` only when next() took it for a zsh numeric range and called advanceLitNone on it; the loop there then
+// has to take its own range branch on that first rune, or it falls through to isLitRedir with an empty literal. So every
+// condition the loop's branch puts beside zshNumRange() (other than on the rune itself) is one the call site in next()
+// also puts beside it. Returns "" when they agree.
+func rangeRecognisersAgree(p *Prog, pkg *packages.Package) string {
+	info := pkg.TypesInfo
+	nextFd := p.FuncDecl("syntax", "Parser.next")
+	loopFd := p.FuncDecl("syntax", "Parser.advanceLitNone")
+	rec := lookupFunc(pkg, "Parser.zshNumRange")
+	if nextFd == nil || loopFd == nil || rec == nil {
+		return "Parser.next, Parser.advanceLitNone or Parser.zshNumRange not found"
+	}
+	self := info.Defs[loopFd.Name]
+	atomsWith := func(cond ast.Expr) (map[string]bool, bool) {
+		out := map[string]bool{}
+		has := false
+		for _, cj := range conjuncts(cond) {
+			if c, ok := ast.Unparen(cj).(*ast.CallExpr); ok && calleeOf(info, c) == rec {
+				has = true
+				continue
+			}
+			out[exprString(cj)] = true
+		}
+		return out, has
+	}
+	// the loop's branch
+	var loopAtoms map[string]bool
+	ast.Inspect(loopFd.Body, func(n ast.Node) bool {
+		is, ok := n.(*ast.IfStmt)
+		if !ok || loopAtoms != nil {
+			return true
+		}
+		if a, has := atomsWith(is.Cond); has {
+			loopAtoms = a
+		}
+		return true
+	})
+	if loopAtoms == nil {
+		return "advanceLitNone no longer tests zshNumRange() in a branch of its own"
+	}
+	// the call sites in next() that can pass `<` or `>`
+	sites := 0
+	fail := ""
+	var stack []ast.Node
+	ast.Inspect(nextFd.Body, func(n ast.Node) bool {
+		if n == nil {
+			stack = stack[:len(stack)-1]
+			return true
+		}
+		stack = append(stack, n)
+		c, ok := n.(*ast.CallExpr)
+		if !ok || calleeOf(info, c) != self {
+			return true
+		}
+		// inside a case clause that lists '<' or '>'?
+		lists := false
+		callAtoms := map[string]bool{}
+		for i := len(stack) - 1; i >= 0; i-- {
+			switch x := stack[i].(type) {
+			case *ast.CaseClause:
+				for _, e := range x.List {
+					if tv, ok := info.Types[e]; ok && tv.Value != nil {
+						if v := tv.Value.ExactString(); v == "60" || v == "62" {
+							lists = true
+						}
+					}
+				}
+			case *ast.IfStmt:
+				if i+1 < len(stack) && stack[i+1] == ast.Node(x.Body) {
+					a, _ := atomsWith(x.Cond)
+					for k := range a {
+						callAtoms[k] = true
+					}
+				}
+			}
+		}
+		if !lists {
+			return true
+		}
+		sites++
+		for a := range loopAtoms {
+			if strings.Contains(a, "r ==") || strings.Contains(a, "r !=") {
+				continue
+			}
+			if !callAtoms[a] {
+				fail = fmt.Sprintf("advanceLitNone takes its numeric-range branch only under `%s`, which the call at %s, made for a literal that begins with the operator, does not test: where they disagree the loop falls through to isLitRedir with an empty literal", a, p.Position(c.Pos()))
+			}
+		}
+		return true
+	})
+	if sites == 0 {
+		return ""
+	}
+	return fail
 }
